@@ -326,6 +326,11 @@ func (w *worker) put(h *httpChar, hist []string, v *hval) bool {
 		return false
 	}
 	r.Distinct("http_put_status", fmt.Sprint(m.Status))
+	if w.id == 0 && (v.JSON == "-1" || v.JSON == `"NaN"`) && len(hist) == 1 && r.Counter("http_samples") < 2 {
+		r.Count("http_samples", 1)
+		r.Sample(map[string]interface{}{"path": "http", "subject": h.sub.Name, "served_format": decl.Format, "put": string(body), "put_status": m.Status,
+			"go_object_after": show(h.c.Value)})
+	}
 
 	seen := map[string]bool{}
 	report := func(fs []finding, view string) {
@@ -442,7 +447,7 @@ func (w *worker) run(vals []*hval) {
 			}
 		}
 		// random PUT sequences on this characteristic
-		for i := 0; i < r.Pick(3, 40); i++ {
+		for i := 0; i < r.Pick(3, 120); i++ {
 			var hist []string
 			k := 2 + rnd.Intn(5)
 			var prev *hval
